@@ -32,6 +32,8 @@ def framing(ck, radio, agg, rule="R01.5"):
         elif role == "writen":
             args = [Sym("reg", "int", rng=(0, 255)), link.param_buf("out_buf")]
             link.sym_len_state(radio, st, "out_buf")
+        elif role == "cmd":
+            args = [Sym("reg", "int", rng=(0, 255))]
         else:
             args = [Sym("reg", "int", rng=(0, 255)), Sym("value", "int", rng=(0, 255))]
         # the SPI device is external here (the spidev wrapper is checked separately)
@@ -72,6 +74,8 @@ def framing(ck, radio, agg, rule="R01.5"):
                 want = Lin({}, 2)
             elif role == "write1":
                 want = Lin({}, 2)
+            elif role == "cmd":
+                want = Lin({}, 1)
             elif role == "readn":
                 want = Lin({"n": 1}, 1)
             else:
@@ -91,7 +95,7 @@ def framing(ck, radio, agg, rule="R01.5"):
                 agg.add(rule, f, "MOSI byte 0 carries the command", bool(first), "no store to MOSI[0]")
                 if first:
                     v = norm(first[-1].data[2])
-                    if role in ("read1", "readn"):
+                    if role in ("read1", "readn", "cmd"):
                         okc = isinstance(v, Sym) and v.name == "reg"
                         agg.add(rule, f, "read command byte is the register/command unchanged", okc, "MOSI[0] = %r" % (v,))
                     elif role == "writen":
@@ -205,6 +209,8 @@ def run(ck):
     # hold for the radio only while every setter keeps those copies equal to the registers (C03's R03.3 obligations, re-run here)
     from . import c03
     n9 = c03.run_setters(radio, agg, contract.SETTERS)
+    # ... and every getter: several of them refresh the cached copy from the register they read (the whole register, not the bit they return)
+    n9 += c03.run_getters(radio, agg, contract.GETTERS)
     # "attributed to the pipe whose address it was sent to": the addresses handed to open_rx_pipe() must not stay shared with the caller
     # (R08.1: the driver keeps private copies)
     from . import c08
